@@ -90,7 +90,16 @@ Env2Points ==
   {Opt(<<U, U, U>>, NoSh, -1, FALSE, TRUE) @@ [x |-> [EnvBase EXCEPT !.wd = "/d", !.prog = p, !.cwd = c1, !.penv = e1], x2 |-> [cwd |-> c2, penv |-> e2, limit |-> l2]] :
      p \in {"./c", "sub/c", "/bin/c"}, c1 \in Cwds, c2 \in Cwds, e1 \in {<<"P=1">>, <<>>}, e2 \in {<<"P=2", "Q=3">>, <<>>}, l2 \in {32, 64}}
 
-Points == IF Family = "options" THEN OptionPoints ELSE IF Family = "wiring" THEN WiringPoints
+\* family "tables" (C13 b): the per-stream verdict for EVERY redirect value x shorthand combination x stream, exported as a table;
+\* the harness composes it over the full product of option records ("reject iff some stream rejects", input and fork rules)
+TablePoints == {[s |-> s, r |-> r, sh |-> sh] : s \in 1..3, r \in AllRedirects, sh \in Shorthands}
+B(x) == IF x THEN 1 ELSE 0
+TableRow(pt) ==
+  LET r == pt.r  sh == pt.sh IN
+  <<"T", pt.s, r.t, B(r.h # 0), B(r.f # 0), B(r.p # ""), B(sh.parent), B(sh.discard), B(sh.file # 0), B(sh.path # ""),
+    IF RejectStream(r, pt.s, sh) THEN 1 ELSE IF r.t > T_PATH THEN 2 ELSE 0, Effective(r, pt.s, sh).t>>
+
+Points == IF Family = "tables" THEN TablePoints ELSE IF Family = "options" THEN OptionPoints ELSE IF Family = "wiring" THEN WiringPoints
           ELSE IF Family = "faultscen" THEN FaultScenPoints ELSE IF Family = "env2" THEN Env2Points ELSE EnvPoints
 X == IF "x" \in DOMAIN o THEN o.x ELSE EnvBase
 
@@ -172,11 +181,13 @@ Script2 ==
     [StartRec EXCEPT !.h = 2], Exp2>>
 Script == IF Family = "env2" THEN Script2 ELSE <<CfgRec, [e |-> "call", fn |-> "new", h |-> 1], [e |-> "ret", r |-> 1], StartRec, Expected>>
 
-Next == phase = "pick" /\ phase' = "done" /\ UNCHANGED <<o, k>> /\ PrintT(<<"BEH", ToJson(Script)>>)
+Next == phase = "pick" /\ phase' = "done" /\ UNCHANGED <<o, k>>
+        /\ IF Family = "tables" THEN PrintT(<<"BEH", ToJson(TableRow(o))>>) ELSE PrintT(<<"BEH", ToJson(Script)>>)
 Spec == Init /\ [][Next]_vars
 
 \* sanity of the transcription: the verdict is total and an accepted request has a definite type per stream
 VerdictSane ==
+  Family = "tables" \/
   LET v == Verdict(o) IN
   /\ v.v \in {"reject", "late", "unspecified", "accept"}
   /\ v.v = "accept" => \A s \in 1..3 : v.eff[s].t \in 1..7 /\ (v.eff[s].t = T_STDOUT => s = 3)
